@@ -239,10 +239,73 @@ def _shortcut_involved(bars):
     return sc and numeric_mismatch(bars, cps) is not None
 
 
+def ctor_search(rep, n, rng, only_first=True):
+    """the grid landscape is built from the diagram of the requested degree, infinite bars left out, on the user's grid ends when
+    given and else on [smallest birth, largest finite death] of that diagram"""
+    import contextlib, io
+    from persim.landscapes import PersLandscapeApprox
+    ev = 0
+    for _ in range(n):
+        m = rng.randint(1, 3)
+        dgms = []
+        for _d in range(m):
+            bars = [[float(rng.randint(0, 6)), 0.0] for _i in range(rng.randint(1, 4))]
+            bars = [[b, b + rng.randint(1, 5)] for b, _x in bars]
+            if rng.random() < 0.5:
+                bars.insert(rng.randint(0, len(bars)), [float(rng.randint(0, 3)), float("inf")])
+            dgms.append(np.array(bars))
+        h = rng.randrange(m)
+        kw = {}
+        if rng.random() < 0.4:
+            kw["start"] = rng.choice([0.0, -1.0, 0.5])
+        if rng.random() < 0.4:
+            kw["stop"] = rng.choice([12.0, 20.0])
+        fin = dgms[h][np.isfinite(dgms[h][:, 1])]
+        want = (kw.get("start", float(fin[:, 0].min())), kw.get("stop", float(fin[:, 1].max())))
+        with warnings.catch_warnings(), contextlib.redirect_stdout(io.StringIO()):
+            warnings.simplefilter("ignore")
+            try:
+                A = PersLandscapeApprox(dgms=[d.copy() for d in dgms], hom_deg=h, num_steps=9, **kw)
+                got = (float(A.start), float(A.stop))
+                used = np.asarray(A.dgms, dtype=float)
+            except Exception as ex:
+                got, used = "raised %r" % (ex,), None
+        ev += 1
+        ok = got == want and used is not None and sorted(map(tuple, used.tolist())) == sorted(map(tuple, fin.tolist()))
+        if not ok:
+            rep.violation("PersLandscapeApprox(dgms, hom_deg=%d, %s): grid ends %s and bars used %s; the requested degree's finite bars are %s with grid ends %s" % (h, kw, got, None if used is None else used.tolist(), fin.tolist(), want),
+                          "approx:constructor", {"input": {"dgms": [d.tolist() for d in dgms], "hom_deg": h, "grid_arguments": kw}, "observed": repr(got), "expected": list(want)})
+            if only_first:
+                break
+    return ev
+
+
+def _replay_ctor(a):
+    class C:
+        def __init__(self):
+            self.v = []
+
+        def violation(self, what, sig, payload, **k):
+            self.v.append((what, sig, payload))
+    c = C()
+    ctor_search(c, 300, random.Random(11))
+    if c.v:
+        what, sig, payload = c.v[0]
+        return True, payload, sig, what
+    return False, None, None, None
+
+
 def run(rep, tier, seed):
     from contracts.c08_tools import all_contracts
     cs, table = all_contracts(tier)
     run_contracts(rep, cs, table, tier=tier, pid="C08")
+    # the constructor: diagram of the requested degree, finite bars only, grid ends given-or-derived
+    from contracts.c03_ctor import approx_ctor_contracts
+    cs2, t2 = approx_ctor_contracts(tier)
+    run_contracts(rep, cs2, t2, tier=tier, pid="C08", replayers=[(r"PersLandscapeApprox.__init__", _replay_ctor)])
+    ev = ctor_search(rep, 60 if tier == "quick" else 1500, random.Random(seed * 7 + 3))
+    rep.bounded("grid-landscape constructor (run time)", "random lists of 1..3 diagrams with infinite bars at any position, grid ends given or derived", ev, ev,
+                "bars used == finite bars of dgms[hom_deg]; start / stop == given values else min birth / max finite death")
     for nb, ns, budget in ([(1, 6, 60), (2, 5, 200)] + ([(2, 6, 600), (3, 5, 1500)] if tier == "thorough" else [])):
         e2(rep, nb, 0, 5, ns, budget)
     _standin(rep, tier, seed)
